@@ -186,18 +186,27 @@ func VH_C07_inject(sink int) {
 	vReach("serialised")
 }
 
+type vC07CustomCtx struct {
+	DefaultCtx
+}
+
 // VH_C07_guard: a request whose method is outside the configured set gets 501 and no handler.
-// case 0: default method set; case 1: custom RequestMethods.
+// case 0: default method set; case 1: custom RequestMethods; +2: application with a custom context.
 func VH_C07_guard(caseID int) {
 	vStub("html.EscapeString=identity")
 	vStub("fasthttp.normalizePath=skip")
 	cfg := Config{ErrorHandler: vStatusOnly}
 	methods := DefaultMethods
-	if caseID == 1 {
+	if caseID%2 == 1 {
 		methods = []string{"GET", "POST", "LOCK"}
 		cfg.RequestMethods = methods
 	}
 	app := New(cfg)
+	if caseID >= 2 {
+		app.NewCtxFunc(func(app *App) CustomCtx {
+			return &vC07CustomCtx{DefaultCtx: *NewDefaultCtx(app)}
+		})
+	}
 	ran := false
 	app.Use(func(c Ctx) error {
 		ran = true
@@ -223,4 +232,28 @@ func VH_C07_guard(caseID int) {
 		vAssert(!inSet, "configured-method-not-rejected")
 		vAssert(fctx.Response.StatusCode() == StatusNotImplemented, "501")
 	}
+}
+
+// VH_C07_path: an arbitrary request target never crashes the dispatcher, whatever the routing
+// configuration makes of it (percent-decoding, case folding, trailing slashes). case = config index.
+func VH_C07_path(caseID int) {
+	cfg := vCfgs[caseID%8]
+	app := vNewApp(cfg)
+	ran := 0
+	app.Get("/a/:x", func(c Ctx) error { ran++; _ = c.Params("x"); _ = c.Path(); return nil })
+	app.Get("/*", func(c Ctx) error { ran++; _ = c.Params("*"); return nil })
+	app.startupProcess()
+	p := vString("path", vLen("plen", 1, 4))
+	for i := 0; i < len(p); i++ {
+		c := p[i]
+		// bytes a request line can carry in the path (no blank, CTL, '?' or '#')
+		vAssume(c > 0x20)
+		vAssume(c != 0x7f)
+		vAssume(c != '?')
+		vAssume(c != '#')
+	}
+	fctx := vDo(app, "GET", "/"+p)
+	st := fctx.Response.StatusCode()
+	vAssert(vOr(st == StatusOK, st == StatusNotFound), "answered")
+	vReach("returned")
 }
